@@ -35,7 +35,7 @@ def run(prop, tier, seed):
     traces = pmap(_run, jobs, procs=14)
     out.traces = len(traces)
     out.events = len(traces)
-    common.TRACE_FIELDS = ('id', 'obs0', 'obs1', 'obs2', 'warn1', 'warn2', 'warn3')
+    common.TRACE_FIELDS = ('id', 'obs0', 'obs1', 'obs2', 'warn1', 'warn2', 'warn3', 'busy', 'raised0', 'warn0')
     verdicts, st, tr = validate_all('CheckTrace.tla', 'CheckTrace.cfg', traces, batch_events=300)
     out.states += st
     out.transitions += tr
